@@ -32,7 +32,7 @@ TRANSFORMS = ["perm-vertices", "perm-edges", "relabel", "shift-2pi", "negate-qua
 @S.composite
 def strategy_(g):
     tr = g.choice(TRANSFORMS)
-    kw = dict(n_pose=(2, 8), n_lm=(0, 3), n_loops=(0, 3), conds=(1.0, 1e2), noise=(0.05, 0.05), pert=(0.3, 0.3), features=("parallel", "reversed", "permute", "ids", "multifixed", "rn_lm_offsets", "quat-signs", "pure-translation-steps", "lm_odo", "near-identity-orientations"), allow_zero_noise=False)
+    kw = dict(n_pose=(2, 8), n_lm=(0, 3), n_loops=(0, 3), conds=(1.0, 1e2), noise=(0.05, 0.05), pert=(0.3, 0.3), features=("parallel", "reversed", "permute", "ids", "multifixed", "rn_lm_offsets", "quat-signs", "pure-translation-steps", "lm_odo", "near-identity-orientations", "info-scale", "flag-types"), allow_zero_noise=False)
     if tr == "shift-2pi":
         kw["bases"] = ("se2",)
     if tr == "negate-quat":
